@@ -19,13 +19,29 @@ const NOT_COMPARED: &str = "events, attributes and error strings (the kernel doe
 
 fn main() {
     mc::world::silence_panics();
-    let a = mc::parse_args();
-    if a.cmd != "kernel-diff" {
-        eprintln!("usage: kernel-diff kernel-diff [--tier quick|thorough]");
+    // `kernel-diff [kernel-diff] [--tier quick|thorough]` (the wrapper passes the property id first)
+    let argv: Vec<String> = std::env::args().skip(1).collect();
+    let mut tier = std::env::var("VERIF_TIER").unwrap_or_else(|_| "quick".to_string());
+    let mut i = 0;
+    while i < argv.len() {
+        match argv[i].as_str() {
+            "kernel-diff" if i == 0 => i += 1,
+            "--tier" if i + 1 < argv.len() => {
+                tier = argv[i + 1].clone();
+                i += 2;
+            }
+            other => {
+                eprintln!("machinery error: unexpected argument '{other}'; usage: kernel-diff [kernel-diff] [--tier quick|thorough]");
+                std::process::exit(2);
+            }
+        }
+    }
+    if tier != "quick" && tier != "thorough" {
+        eprintln!("machinery error: unknown tier '{tier}'");
         std::process::exit(2);
     }
-    let thorough = a.tier == "thorough";
-    let code = match std::panic::catch_unwind(|| run(&a.tier, thorough)) {
+    let thorough = tier == "thorough";
+    let code = match std::panic::catch_unwind(|| run(&tier, thorough)) {
         Ok(c) => c,
         Err(p) => {
             eprintln!("machinery error: kernel-diff panicked: {}", mc::world::panic_msg(&p));
@@ -134,10 +150,16 @@ fn run(tier: &str, thorough: bool) -> i32 {
     rep.bounds = "all action sequences of length 1..=depth per scenario (DFS with shared prefixes: the kernel World is cloned and the App's whole storage + block are snapshotted/restored around every action, so every distinct sequence is executed exactly once per runtime; success/failure and data are compared after every step, the full state comparison is skipped only when both runtimes are bit-for-bit back in the parent state that was already compared — i.e. after correctly rolled back refusals; the tree is split over rayon tasks by its first two actions, each task on fresh runtimes); additionally every maximal trace of a reduced depth is replayed on fresh runtimes without any restore".into();
     rep.assumptions = vec![
         "cw-multi-test 2.0.0 is the reference for dispatch, sub-message/reply, rollback, data and bank semantics (it is the runtime the repository's own integration tests run on)".into(),
+        "the App is built with MemStore storage (to snapshot it) and mc's KApi, which is cosmwasm_std::testing::MockApi plus a per-thread memo of its addr_validate answers (saves about 40% CPU; bank, wasm, router, contract wrappers are stock cw-multi-test 2.0.0)".into(),
         "contract addresses are identical in both runtimes: multi-test derives them (default generator: code id + instance count) and the kernel installs its instance at the same address; users are MockApi::addr_make addresses; block height/time/chain id (mc-chain) are set identically; both pass Env.transaction = Some(index 0)".into(),
         "multi-test idiosyncrasies deliberately NOT exercised (documented, restricted away): Reply.payload (multi-test 2.0.0 always passes an empty payload; the kernel forwards SubMsg.payload like wasmd 2.x) — the stubs never set a payload; bank sends to syntactically invalid addresses (multi-test does not validate the recipient, the kernel and a real chain do); responses with empty attribute values / keys starting with '_' / 1-letter event types (multi-test rejects them, the kernel does not look at attributes); data = Some(empty) (the protobuf wrapper makes it None at top level in multi-test); duplicate denoms inside one funds list".into(),
         "not covered: WasmMsg::Instantiate/Migrate/UpdateAdmin, staking/distribution/gov/ibc messages (no contract of the repository's cross-contract families emits them towards the kernel's dispatcher), gas limits, the IBC driver (cw-multi-test has no IBC entry points)".into(),
     ];
+    if only.is_some() || depth_override.is_some() {
+        // developer switches: the evidence must say that this was not the full check
+        rep.extra.insert("restricted_run".into(), json!({"KDIFF_ONLY": only, "KDIFF_DEPTH": depth_override}));
+        println!("kernel-diff: NOTE restricted developer run (KDIFF_ONLY / KDIFF_DEPTH set)");
+    }
     rep.extra.insert("what_is_compared".into(), json!(COMPARED));
     rep.extra.insert("not_compared".into(), json!(NOT_COMPARED));
     rep.extra.insert("scenarios".into(), json!(per));
@@ -181,15 +203,23 @@ fn run(tier: &str, thorough: bool) -> i32 {
         println!("kernel-diff: kernel and cw-multi-test agree on every step of every enumerated trace");
         return 0;
     }
+    // the first (shortest) disagreement of every scenario in full, the others are in the evidence file
+    let mut seen = std::collections::BTreeSet::new();
     for d in &all_dis {
+        if !seen.insert(d.scenario.clone()) {
+            continue;
+        }
         eprintln!(
-            "machinery error: KERNEL-DIFF DISAGREEMENT scenario={} step={} (confirmed on fresh runtimes: {:?})\n  what: {}\n  trace:",
-            d.scenario, d.step, d.confirmed_on_fresh_runtimes, d.what
+            "machinery error: KERNEL-DIFF DISAGREEMENT scenario={} step={} (reproduced on fresh runtimes: {})\n  what differed: {}\n  trace:",
+            d.scenario,
+            d.step,
+            d.confirmed_on_fresh_runtimes.map(|b| if b { "yes" } else { "NO" }).unwrap_or("n/a"),
+            d.what
         );
         for (i, a) in d.actions.iter().enumerate() {
             eprintln!("    {}. {}", i + 1, a);
         }
     }
-    eprintln!("machinery error: kernel and cw-multi-test disagree ({} report(s) above); the kernel is not validated", n_dis);
+    eprintln!("machinery error: kernel and cw-multi-test disagree ({} disagreement report(s), all listed in evidence/kernel-diff.json); the kernel is NOT validated", n_dis);
     2
 }
